@@ -1487,10 +1487,23 @@ class Interp:
         if c is not None and c.stmt_hints and fr.func is self.current_target:
             text = None
             text_loop = None
+            if isinstance(st, ast.If):
+                # '@ifK': the K-th if statement of the function in source order (robust against edits of the test)
+                ifs_ = getattr(fr.func, '_if_order', None)
+                if ifs_ is None:
+                    nodes_ = sorted((n_ for n_ in ast.walk(fr.func.node) if isinstance(n_, ast.If)),
+                                    key=lambda n_: (n_.lineno, n_.col_offset))
+                    ifs_ = {id(n_): i_ for i_, n_ in enumerate(nodes_)}
+                    fr.func._if_order = ifs_
+                if id(st) in ifs_:
+                    text_loop = '@if%d' % ifs_[id(st)]
             if c.ghost_updates:
                 text = ast.unparse(st)
+                if isinstance(st, (ast.While, ast.For)):
+                    k_, _spec = self.loop_annotation(fr, st)
+                    text_loop = '@loop%d' % k_
                 for htext, sets in c.ghost_updates:
-                    if htext == text:
+                    if htext == text or (text_loop is not None and htext == text_loop):
                         sf_ = self.spec_frame(fr)
                         vals_ = [(g_, self.ev(e_, sf_)) for g_, e_ in sets]
                         for g_, v_ in vals_:
@@ -1498,9 +1511,9 @@ class Interp:
             for htext, uses, checks in c.stmt_hints:
                 if text is None:
                     text = ast.unparse(st)
-                    if isinstance(st, (ast.While, ast.For)):
-                        k_, _spec = self.loop_annotation(fr, st)
-                        text_loop = '@loop%d' % k_
+                if text_loop is None and isinstance(st, (ast.While, ast.For)):
+                    k_, _spec = self.loop_annotation(fr, st)
+                    text_loop = '@loop%d' % k_
                 if text == htext or (text_loop is not None and text_loop == htext):
                     self.apply_uses(uses, fr)
                     for h2, _why, e_ in c.assumes_at:
